@@ -28,6 +28,10 @@ def cases(tier):
                 if tier == "quick" and v == 2.0 and u not in ("GPM", "LPS"):
                     continue
                 out.append({"devs": s["devs"], "units": u, "version": v})
+    # the same models written AFTER a WNTRSimulator run: the file must describe the definition, not the state the run left behind
+    for s in modelspace.enumerate_specs(1, keep=inp_ok):
+        for u in (("LPS",) if tier == "quick" else ("LPS", "GPM")):
+            out.append({"devs": s["devs"], "units": u, "version": 2.2, "presim": True})
     if tier == "thorough":
         seen = set(tuple(s["devs"]) for s in modelspace.enumerate_specs(1, keep=inp_ok))
         for s in modelspace.enumerate_specs(2, keep=inp_ok):
@@ -269,6 +273,13 @@ def run_case(s):
     nt = bool(s["devs"]) or s["units"] not in ("LPS",)
     d1 = json.loads(json.dumps(wntr.network.to_dict(wn), default=str))
     tmp = tempfile.mkdtemp(dir=".")
+    presim = "no"
+    if s.get("presim"):
+        try:
+            wntr.sim.WNTRSimulator(wn).run_sim()
+            presim = "ran"
+        except Exception as e:  # noqa  (PBV / GPV are refused, some models do not converge: the model is still a model)
+            presim = "failed:" + type(e).__name__
 
     def cycle(w, i):
         p = os.path.join(tmp, "m%d.inp" % i)
@@ -312,7 +323,10 @@ def run_case(s):
     finally:
         import shutil
         shutil.rmtree(tmp, ignore_errors=True)
-    return {"viol": viol[:8], "nontrivial": nt, "outcome": "ok" if not viol else "diff", "counts": {"cycles": 2}}
+    if s.get("presim"):
+        for v in viol:
+            v["key"] = "after-run:" + v["key"]; v["what"] = "model simulated before writing: " + v["what"]
+    return {"viol": viol[:8], "nontrivial": nt, "outcome": ("ok" if not viol else "diff") + (":presim-" + presim.split(":")[0] if s.get("presim") else ""), "counts": {"cycles": 2}}
 
 
 def _section_of(lines, line):
